@@ -1,0 +1,5 @@
+//go:build !verif
+
+package value
+
+func verifDiscard(_ Primary) bool { return false }
